@@ -131,6 +131,22 @@ def param_query(rng, named):
     if rng.random() < 0.4:
         q.order_by = [ir.Key('expr', ir.bin_('mul', ir.col('i', T_INT), P(T_INT, rng.choice([1, -1, 2])), T_INT), rng.choice([None, True])),
                       ir.Key('index', 1)]
+    r = rng.random()
+    if r < 0.2:
+        # the same expression shape bound to DIFFERENT values in a target and in an ORDER BY / GROUP BY expression
+        a, b = rng.sample([1, -1, 2, 3, -2], 2)
+        shape = rng.choice(['mul', 'add', 'sub'])
+        t_int = T_INT
+        q = ir.Query(targets=[ir.Target(ir.col('k', T_INT)), ir.Target(ir.bin_(shape, ir.col('i', T_INT), P(T_INT, a), t_int), 'x')], table='t',
+                     order_by=[ir.Key('expr', ir.bin_(shape, ir.col('i', T_INT), P(T_INT, b), t_int), rng.choice([None, True])), ir.Key('index', 1)])
+        return q
+    if r < 0.3:
+        a, b = rng.sample([0, 1, 2, 5], 2)
+        q = ir.Query(targets=[ir.Target(ir.bin_('gt', ir.col('i', T_INT), P(T_INT, a), T_BOOL), 'g'), ir.Target(ir.agg('count', [], T_INT), 'n')], table='t',
+                     group_by=[ir.Key('index', 1)], order_by=[ir.Key('expr', ir.agg('sum', [ir.bin_('gt', ir.col('j', T_INT), P(T_INT, b), T_BOOL)], T_INT), None), ir.Key('index', 1)])
+        q.order_by = [ir.Key('index', 2), ir.Key('index', 1)]
+        q.having = ir.bin_('ge', ir.agg('count', [], T_INT), P(T_INT, 0), T_BOOL)
+        return q
     if rng.random() < 0.2:
         inner = q
         q = ir.Query(targets=[ir.Target(ir.col('k', T_INT)), ir.Target(ir.bin_('add', ir.col('k', T_INT), P(T_INT), T_INT), 'kk')],
